@@ -203,11 +203,25 @@ func (t *tcpTransport) Receive(ctx context.Context) (envelope, error) {
 	return raw.toEnvelope()
 }
 
+// closeNotifyTimeout is how long the closing of a TLS connection waits for its close notify alert to be written.
+const closeNotifyTimeout = 500 * time.Millisecond
+
 func (t *tcpTransport) Close() error {
 	// The connection should be closed even if the remote party has already
 	// closed its end (EOF), otherwise it would never be released.
 	if t.conn == nil {
 		return errors.New("transport is not open")
+	}
+
+	// Closing a TLS connection writes the close notify alert, for which crypto/tls waits for up
+	// to five seconds when the remote party is not reading. A caller that is closing the transport
+	// because its context has ended (like FinishSession) should not be held for that long, so the
+	// underlying connection is closed when the alert cannot be written in a short time.
+	if tlsConn, ok := t.conn.(*tls.Conn); ok {
+		timer := time.AfterFunc(closeNotifyTimeout, func() {
+			_ = tlsConn.NetConn().Close()
+		})
+		defer timer.Stop()
 	}
 
 	err := t.ctxConn.Close()
